@@ -13,7 +13,7 @@ EXPLANATION = ("Protocol shape + classification of every wake decision, decided 
                "empty->non-empty detection (length computed inside the critical section that contains the publication -- or sampled after the publication CAS -- the guard "
                "holds at the transition value and the target at that value is stream 0 / the queue's own listener) -- A and B are sound sufficient conditions for 'a parked, "
                "driven stream is woken'; C = heuristic: the length was sampled before publication without a lock, or the target need not exist -- reported (listed genuine "
-               "findings, DESIGN 5-D4); (R04.6) every implemented accept entry point reaches a wake site.")
+               "findings, DESIGN 5-D4); (R04.6) every implemented accept entry point reaches a wake site. Every channel's register_stream_waker / keep_stream_running forward to the manager with the same id / waker (R04.1).")
 ASSUMPTIONS = ["executors honour the Waker contract (a woken task is re-polled)",
                "class C sites are reported as findings: that they lose a wake-up in one particular run is not decided",
                "class B relies on the full-sync containers computing the returned length inside their critical section (C02 R02.4)"]
@@ -316,6 +316,11 @@ def check_poll_protocol(ctx):
     lk = [(b, c) for (b, c) in body.calls if (c.get("resolved") or c.get("f")) == R.SPIN_LOCK]
     retry = any(body.dominates(lb, wb) for (lb, _) in lk for (wb, _) in wk)
     ctx.ob("R04.2", f"{k}|retries-under-lock-when-empty", len(wk) >= 2 and retry, f"{body.f['file']}:{body.f['line']}", "wake_stream wakes the registered waker and, when it found the slot empty, looks again under wakers_lock")
+    # the stream's poll reaches the manager through the channel's ChannelConsumer plumbing: forwarded with the same id / waker
+    import delegation
+    for name, path in R.CHANNELS.items():
+        delegation.thin(ctx, "R04.1", f"{path} as {R.T_CONS}::register_stream_waker", "register_stream_waker", "poll_next registers its waker with the streams manager under its own id")
+        delegation.thin(ctx, "R04.1", f"{path} as {R.T_CONS}::keep_stream_running", "keep_stream_running", "poll_next consults the manager's keep-running flag of its own id")
     ctx.floor("R04.2", 4); ctx.floor("R04.1", 4)
 
 
